@@ -22,6 +22,6 @@ PROP = {
 
 # (category, text, design_ref, technique)
 LEVEL = ("translation_validation",
-         "Per generated well-typed program: built by the real CLI, run, and stdout + exit status (including the defined runtime faults) compared with the Lean reference interpreter CapyV.CoreMem.run. A second stream compares aggregates: `==` / `!=` on arrays, slices, struct fields and through pointers over nine item types with tags and tail padding (equal pairs, pairs differing only at the last / a middle / the first item), against Lean's CapyV.AggEq.veq, proved to be equality of values (veq_iff, veq_symm, arrays_differing_somewhere in Props/C01AggEq.lean). A third stream checks evaluation order: effectful leaves inside struct literals written in a permuted field order, array literals, call arguments and binary operands, nested two levels; printed effects and stored values against CapyV.EvalOrder.run (effects_in_written_order, leaves_see_earlier_effects in Props/C01Order.lean). The Lean theorems are meta-theorems of the reference semantics (value ranges, modular arithmetic, exit-status rule, store frame lemmas for variables, elements and writes through pointers, read-after-write through a pointer, by-value copies, slice bounds check, dead frames are stuck); the compiler's mechanisms are proved under their own properties. Partial by construction: a fragment of the language, a sample of programs.",
+         "Per generated well-typed program: built by the real CLI, run, and stdout + exit status (including the defined runtime faults) compared with the Lean reference interpreter CapyV.CoreMem.run. A second stream compares aggregates: `==` / `!=` on arrays, slices, struct fields and through pointers over nine item types with tags and tail padding (equal pairs, pairs differing only at the last / a middle / the first item), against Lean's CapyV.AggEq.veq, proved to be equality of values (veq_iff, veq_symm, arrays_differing_somewhere in Props/C01AggEq.lean). A third stream checks evaluation order: effectful leaves inside struct literals written in a permuted field order, array literals, call arguments and binary operands, nested two levels; printed effects and stored values against CapyV.EvalOrder.run (effects_in_written_order, leaves_see_earlier_effects in Props/C01Order.lean). A fourth stream is the CopyLang stream of C02 (13 copy forms incl. mutable copies made through `if`, a block and a labelled `break`), run here too because a copy that aliases its source is also a wrong result. The Lean theorems are meta-theorems of the reference semantics (value ranges, modular arithmetic, exit-status rule, store frame lemmas for variables, elements and writes through pointers, read-after-write through a pointer, by-value copies, slice bounds check, dead frames are stuck); the compiler's mechanisms are proved under their own properties. Partial by construction: a fragment of the language, a sample of programs.",
          "§4 C01",
          "translation validation against a Lean reference interpreter on type-directed generated programs")
